@@ -752,6 +752,17 @@ class XlsxRowWriter(AbstractRowWriter):
         assert row_to_write is not None
 
         row_index = self.location.line
+        # Refuse the row before anything of it is written so that the next row ends up where it belongs.
+        for item_index, item in enumerate(row_to_write):
+            if isinstance(item, str) and len(item) > self.worksheet.xls_strmax:
+                self.location.set_cell(item_index)
+                error = errors.DataFormatError(
+                    "item with %d characters must fit into an Excel cell: at most %d characters"
+                    % (len(item), self.worksheet.xls_strmax),
+                    self.location,
+                )
+                self.location.set_cell(0)
+                raise error
         for item in row_to_write:
             assert item is not None
             assert not isinstance(item, bytes), "item must be a string: %r" % item
